@@ -47,7 +47,7 @@ func setCollatorsOf[V any](r *engine.Rec, tname, cname string, rank func(a, b V)
 	for _, data := range sels {
 		data := data
 		for _, np := range []string{"absent", "first", "last"} {
-			for _, form := range []string{"collator+[]V", "collator+Sequential", "[]V+collator"} {
+			for _, form := range []string{"collator+[]V", "collator+Sequential", "[]V+collator", "set ordered by the collator, as a sequence"} {
 				c := collCase{tname, cname, fmt.Sprint(data), form, np}
 				if !r.Wanted(c) {
 					continue
@@ -62,12 +62,20 @@ func setCollatorsOf[V any](r *engine.Rec, tname, cname string, rank func(a, b V)
 						m = mod.Set[V](withNotation(np, mkColl(), seq)...)
 					case "[]V+collator":
 						m = mod.Set[V](withNotation(np, append([]V(nil), data...), mkColl())...)
+					case "set ordered by the collator, as a sequence":
+						// no collator argument: like the class-level MakeFromSequence, the result has the natural order
+						src := col.Set[V](N()).MakeWithCollator(mkColl())
+						src.AddValues(seq)
+						m = mod.Set[V](withNotation(np, src)...)
 					}
 				})
 				ro, _, _ := solo(func() {
 					s := col.Set[V](N()).MakeWithCollator(mkColl())
 					s.AddValues(col.List[V](N()).MakeFromArray(append([]V(nil), data...)))
 					ref = s
+					if form == "set ordered by the collator, as a sequence" {
+						ref = col.Set[V](N()).MakeFromSequence(s)
+					}
 				})
 				r.Evals += 2
 				r.Outcome("Set/" + form)
